@@ -19,7 +19,7 @@ import (
 	"zogverif/zh"
 )
 
-var c20Alphabet = []string{"/", "0", "9", ":", "@", "A", "Z", "[", "`", "a", "z", "{", "~", "\x7f", " ", "!", "é", "Ä", "１", ".", "-", "€", "«", "—", "ſ", "\u212a", "İ"}
+var c20Alphabet = []string{"/", "0", "9", ":", "@", "A", "Z", "[", "`", "a", "z", "{", "~", "\x7f", " ", "!", "é", "Ä", "１", ".", "-", "€", "«", "—", "ſ", "\u212a", "İ", "\xc3", "\x80"} // the last two: a lone lead byte and a lone continuation byte (malformed UTF-8)
 
 // chooseString enumerates every string over alpha with at most maxLen symbols.
 func chooseString(x *mc.X, alpha []string, maxLen int, label string) string {
